@@ -2,6 +2,7 @@ import RtenVerif.Driver.Util
 import RtenVerif.Model.FastBroadcast
 import RtenVerif.Model.InPlace
 import RtenVerif.Model.BinaryDispatch
+import RtenVerif.Model.ReduceDispatch
 import RtenVerif.Generated.RegistryOps
 
 namespace RtenVerif.Driver.C14
@@ -75,6 +76,18 @@ def handleTi (ws : List String) : String :=
       | .error .panic => "panic"
   | _, _ => "bad-request"
 
+open RtenVerif.Layout in
+/-- `red a=<view> k=<n>`: ReduceSum (keepdims) over the innermost `k` axes. -/
+def handleRed (ws : List String) : String :=
+  match (field "a" ws).bind parseView, (field "k" ws).bind String.toNat? with
+  | some a, some k =>
+    let no := a.dims.length - k
+    let O := a.dims.take no
+    let I := a.dims.drop no
+    let d := reduceInnerOp (fun (l : List Int) => wrap32 (l.foldl (· + ·) 0)) O I a.base (fun i => (i : Int) + 1)
+    s!"shape={showShape (sizes O ++ List.replicate k 1)} data={showData d}"
+  | _, _ => "bad-request"
+
 def handleCov (ws : List String) : String :=
   let names := match ws with
     | [w] => w.splitOn ","
@@ -103,6 +116,7 @@ def handle (line : String) : String :=
   | "bop" :: op :: ws => handleBop op ws
   | "uop" :: ws => handleUop ws
   | "ti" :: ws => handleTi ws
+  | "red" :: ws => handleRed ws
   | "cov" :: ws => handleCov ws
   | _ => "skip"
 
